@@ -87,11 +87,23 @@ pub trait ByteSearcher {
     ) -> Result<(), String>;
 }
 
-#[derive(Default, Clone, Debug)]
+#[derive(Clone, Debug)]
 pub struct TreeStats {
     pub nodes: u64,
     pub calls: u64,
     pub counts: u64,
+    /// judge the values returned by next()/next_back() (C06)
+    pub check_values: bool,
+    /// judge size_hint (C06)
+    pub check_hint: bool,
+    /// judge count() of clones taken at every node (C07)
+    pub check_count: bool,
+}
+
+impl TreeStats {
+    pub fn new(check_values: bool, check_hint: bool, check_count: bool) -> TreeStats {
+        TreeStats { nodes: 0, calls: 0, counts: 0, check_values, check_hint, check_count }
+    }
 }
 
 #[inline]
@@ -152,22 +164,24 @@ where
 {
     stats.nodes += 1;
     let remaining = hi - lo;
-    let (l, u) = it.size_hint();
-    if l > remaining {
-        return Err(format!(
-            "size_hint lower {} > remaining {} after path {:?}",
-            l, remaining, path
-        ));
-    }
-    if let Some(u) = u {
-        if u < remaining {
+    if stats.check_hint {
+        let (l, u) = it.size_hint();
+        if l > remaining {
             return Err(format!(
-                "size_hint upper {} < remaining {} after path {:?}",
-                u, remaining, path
+                "size_hint lower {} > remaining {} after path {:?}",
+                l, remaining, path
             ));
         }
+        if let Some(u) = u {
+            if u < remaining {
+                return Err(format!(
+                    "size_hint upper {} < remaining {} after path {:?}",
+                    u, remaining, path
+                ));
+            }
+        }
     }
-    if with_count {
+    if with_count && stats.check_count {
         stats.counts += 1;
         let c = it.clone().count();
         if c != remaining {
@@ -178,6 +192,9 @@ where
         }
     }
     if remaining == 0 {
+        if !stats.check_values {
+            return Ok(());
+        }
         let mut c = it.clone();
         for k in 0..4 {
             stats.calls += 1;
@@ -208,6 +225,9 @@ where
         stats.calls += 1;
         let r = c.next();
         if r != Some(matches[lo]) {
+            if !stats.check_values {
+                return Ok(());
+            }
             return Err(format!(
                 "next() = {:?}, expected Some({}) after path {:?}",
                 r, matches[lo], path
@@ -222,6 +242,9 @@ where
         stats.calls += 1;
         let r = c.next_back();
         if r != Some(matches[hi - 1]) {
+            if !stats.check_values {
+                return Ok(());
+            }
             return Err(format!(
                 "next_back() = {:?}, expected Some({}) after path {:?}",
                 r,
@@ -257,13 +280,15 @@ where
             stats.nodes += 1;
             let remaining = k - f - b;
             let (l, u) = cur.size_hint();
-            if l > remaining || u.map_or(false, |u| u < remaining) {
+            if stats.check_hint
+                && (l > remaining || u.map_or(false, |u| u < remaining))
+            {
                 return Err(format!(
                     "size_hint ({}, {:?}) does not bracket remaining {} after {} next / {} next_back",
                     l, u, remaining, f, b
                 ));
             }
-            if with_count && (b % 7 == 0 || remaining < 3) {
+            if with_count && stats.check_count && (b % 7 == 0 || remaining < 3) {
                 stats.counts += 1;
                 let c = cur.clone().count();
                 if c != remaining {
@@ -278,6 +303,9 @@ where
             let r = cur.clone().next();
             let exp = if remaining == 0 { None } else { Some(matches[f]) };
             if r != exp {
+                if !stats.check_values {
+                    return Ok(());
+                }
                 return Err(format!(
                     "next() = {:?}, expected {:?} after {} next / {} next_back",
                     r, exp, f, b
@@ -288,6 +316,9 @@ where
             let exp =
                 if remaining == 0 { None } else { Some(matches[k - b - 1]) };
             if r != exp {
+                if !stats.check_values {
+                    return Ok(());
+                }
                 return Err(format!(
                     "next_back() = {:?}, expected {:?} after {} next / {} next_back",
                     r, exp, f, b
@@ -298,6 +329,9 @@ where
             stats.calls += 1;
             let r = front.next();
             if r != Some(matches[f]) {
+                if !stats.check_values {
+                    return Ok(());
+                }
                 return Err(format!(
                     "next() = {:?}, expected Some({}) after {} next",
                     r, matches[f], f
